@@ -750,6 +750,19 @@ pub fn check(cfg: &Cfg) -> Result<i32, Harness> {
             let mut tally = Tally::default();
             let (v, h) = eval(&case, &su, wk, &mut tally)?;
             record_digest(i, h.digest());
+            if let Some(d) = std::env::var_os("VF_HIST_DIR") {
+                // debugging aid of the determinism self-test: the observable history of every run
+                let mut t = format!("{:?}\n{:?}\n--stderr\n{}\n--stdout {} bytes\n", case.argv, h.exit, String::from_utf8_lossy(&h.stderr.0), h.stdout.0.len());
+                for o in &h.ops {
+                    t.push_str(&format!("{} = {} {:?}\n", o.sig(), o.ret, o.injected));
+                }
+                t.push_str(&format!("--normalised stderr {:?}\n", simos::tracer::norm_thread_ids(&simos::tracer::norm_tmp_text(&String::from_utf8_lossy(&h.stderr.0)))));
+                t.push_str(&format!("--digest {:x} stdout {:x}\n", h.digest(), crate::common::hash_str(&String::from_utf8_lossy(&h.stdout.0))));
+                for (p, f) in &h.files_after {
+                    t.push_str(&format!("{p} {:?} {} {:o}\n", f.kind, f.bytes.0.len(), f.mode));
+                }
+                let _ = std::fs::write(std::path::Path::new(&d).join(format!("{i}.txt")), t);
+            }
             if std::env::var("VF_TRACE_DUMP").ok().and_then(|s| s.parse::<u64>().ok()) == Some(i) {
                 for o in &h.ops {
                     eprintln!("DUMP {:?} {} ret={} inj={:?}", o.seq, o.sig(), o.ret.min(1 << 40), o.injected);
